@@ -236,3 +236,78 @@ def small_record(fmt, width, idx):
     if fmt == "fastq":
         return [word, seq, qual, word if idx % 2 else ""]
     raise ValueError(fmt)
+
+
+# ---------------------------------------------------------------------------------------
+# VCF with typed INFO and genotype columns
+# ---------------------------------------------------------------------------------------
+
+_INFO_IDS = ["DP", "DP2", "AF", "AFX", "DB", "D", "AN", "NS", "STR", "H2"]
+_INFO_KINDS = [("1", "Integer"), ("A", "Integer"), (".", "Integer"), ("2", "Integer"),
+               ("1", "Float"), ("A", "Float"), (".", "Float"),
+               ("0", "Flag"), ("1", "String"), (".", "String")]
+
+
+def _info_value(number, typ):
+    is_list = not (number.isdigit() and int(number) <= 1)
+    if typ == "Integer":
+        one = int_text(5)
+    elif typ == "Float":
+        one = float_text(False)
+    else:
+        return ident(1, 8, string.ascii_letters + string.digits + "_.")
+    if is_list:
+        n = int(number) if number.isdigit() else None
+        return st.lists(one, min_size=n or 1, max_size=n or 3).map(",".join)
+    return one
+
+
+@st.composite
+def vcf_case(draw, fmt="vcf", max_records=8, typed=None):
+    typed = draw(st.booleans()) if typed is None else typed
+    decl = []
+    if typed:
+        ids = draw(st.lists(st.sampled_from(_INFO_IDS), min_size=1, max_size=5, unique=True))
+        decl = [[i] + list(draw(st.sampled_from(_INFO_KINDS))) for i in ids]
+    geno = fmt in ("vcf2", "vcfm", "vcfpm", "vcfph")
+    n_samples = draw(st.integers(1, 4)) if geno else 0
+    samples = [draw(ident(1, 8)) for _ in range(n_samples)]
+    header = ["##fileformat=VCFv4.2"]
+    for key, number, typ in decl:
+        header.append(f'##INFO=<ID={key},Number={number},Type={typ},Description="desc of {key}, x">')
+    if draw(st.booleans()):
+        header.append("##contig=<ID=chr1,length=1000>")
+    cols = "#CHROM\tPOS\tID\tREF\tALT\tQUAL\tFILTER\tINFO"
+    if geno:
+        cols += "\tFORMAT\t" + "\t".join(samples)
+    header.append(cols)
+    if fmt == "vcfpm":
+        gts = st.sampled_from(["0|0", "0|1", "1|0", "1|1"])
+    elif fmt == "vcfph":
+        gts = st.builds(lambda a, b: f"{a}|{b}", st.sampled_from("01234."), st.sampled_from("01234."))
+    else:
+        gts = st.builds(lambda a, s, b: a + s + b, st.sampled_from("012."), st.sampled_from("|/"), st.sampled_from("012."))
+    base = record_strategy("vcf", 10)
+    recs = []
+    for _ in range(draw(st.integers(1, max_records))):
+        rec = draw(base)
+        if typed:
+            keys = draw(st.lists(st.sampled_from(decl), max_size=len(decl), unique_by=lambda d: d[0]))
+            items = []
+            for key, number, typ in keys:
+                items.append(key if typ == "Flag" else key + "=" + draw(_info_value(number, typ)))
+            if draw(st.integers(0, 5)) == 0:
+                items.insert(draw(st.integers(0, len(items))), "ZZ=" + draw(ident(1, 3)))
+            rec[7] = ";".join(items) if items else "."
+        if geno:
+            extra = draw(st.booleans())
+            rec.append("GT:DP" if extra else "GT")
+            for _s in samples:
+                g = draw(gts)
+                rec.append(g + (":" + str(draw(st.integers(0, 99))) if extra else ""))
+        recs.append(rec)
+    case = {"fmt": fmt, "records": recs, "crlf": draw(st.booleans()), "final_nl": draw(st.booleans()),
+            "header": header}
+    if typed:
+        case["info_decl"] = decl
+    return case
